@@ -315,6 +315,34 @@ class Ctx:
             evs = evs[b:]          # segments are independent and everything before `a` has been accepted
         return failures
 
+    def tlc_trace_segments(self, module, cfg, events, is_reset, overrides=None, timeout=1800):
+        """One linear TLC run over a concatenation of independent segments with a trace spec that has a
+        `dead` give-up chain and reports the highest explained line (<<"HW", line>>).  Returns the same
+        shape as tlc_trace_strict: [(segment_events, index_of_first_unexplained_line, reason)]."""
+        if not events:
+            return []
+        fd, tf = tempfile.mkstemp(prefix="seg_%s_" % module, suffix=".ndjson", dir=self.scratch)
+        os.close(fd)
+        write_jsonl(tf, events)
+        r = self.tlc_trace(module, cfg, tf, overrides=overrides, timeout=timeout)
+        os.remove(tf)
+        if not r["accepted"]:
+            raise MachineryError("%s: the dead chain did not consume the trace: %s" % (module, r["out"][-2000:]))
+        hw = set(int(x) for x in re.findall(r'<<"HW", (\d+)>>', r["out"]))
+        starts = [i for i, e in enumerate(events) if is_reset(e)]
+        if not starts or starts[0] != 0:
+            raise MachineryError("%s: trace does not start with a reset line" % module)
+        failures = []
+        for si, a in enumerate(starts):
+            b = starts[si + 1] if si + 1 < len(starts) else len(events)
+            if b - a <= 1 or b in hw:       # lines are 1-based: the last line of the segment is number b
+                continue
+            explained = [x for x in hw if a + 1 < x <= b]
+            first_bad = (max(explained) + 1) if explained else a + 2     # 1-based line number
+            failures.append((events[a:b], first_bad - 1 - a, "no behaviour of the specification matches this line"))
+        self.count("T", segments=len(starts), rejected_segments=len(failures))
+        return failures
+
     # ---------------------------------------------------------------- classification
     def discrepancy(self, sig, what, replay=None):
         """A behaviour of the real code that the spec does not allow. sig is the canonical signature."""
